@@ -190,6 +190,10 @@ def stmt_faults():
     F["F18x"] = ([("count", False, "k", ("int", 2), [cond(cmp_(">=", P("q", "items", "@k", "n"), n(1)))])], 0, 0)
     F["F18y"] = ([cond(P("q", "fixed", 0, "ok"))], 0, None)
     F["F18z"] = ([("while", cmp_("<", cmp_("+", P("q", "items", 0, "n"), n(1)), n(0)), [svc()])], 0, None)
+    # operands of different types under == / !=, a comparison used as a number (accepted: D12b)
+    F["F18aa"] = ([cond(cmp_("==", P("q", "count"), ("str", "a")))], 0, None)
+    F["F18ab"] = ([cond(cmp_("!=", P("q", "count"), P("q", "flag")))], 0, None)
+    F["F18ac"] = ([cond(cmp_("<", cmp_("+", ("paren", cmp_("<", P("q", "count"), n(2))), n(1)), n(3)))], 0, None)
     F["F20a"] = ([("count", True, "k", ("int", 2), [svc()])], 0, None)
     F["F20b"] = ([("count", True, "k", ("int", 2), [("call",) + GOOD_CALL, ("call",) + GOOD_CALL])], 0, None)
     F["F20c"] = ([("count", True, "k", ("int", 2), [("count", False, "m", ("int", 1), [svc()])])], 0, None)
